@@ -37,7 +37,11 @@ def product_configs(tier):
     many = ["((SO2*R2)*SE2)*SO3Quat", "(SO2*SE2)*(R3*SO3Mrp)", "SO2*SE2*R3*SO3Quat*SE3Mrp"]
     if tier == "thorough":
         many += ["SO3Mrp*(SE2*(SO3Quat*(R2*SO2)))", "SE3Quat*SO3Dcm*SO2*SE23Mrp", "(R3*SO3EulerB321)*(SE2*SO3Quat)*R2"]
-    return pairs + triples + many
+    # the same group more than once (two planar vehicles, two attitudes): the factors are told apart by position, not by the group object
+    repeated = ["SE2*SE2", "SO3Quat*SO3Quat", "R3*SO3Mrp*R3", "SO3Quat*(SE2*SO3Quat)"]
+    if tier == "thorough":
+        repeated += ["SE3Quat*SE3Quat", "SO2*R2*SO2*R2", "(SO3Mrp*SO3Mrp)*SO3Mrp"]
+    return pairs + [r for r in repeated if r not in pairs] + triples + many
 
 
 def rep_tag(e):
@@ -155,3 +159,104 @@ def close(A, B, tol=TOL, scale=None):
 
 def key_of(p, digits=12):
     return tuple(float("%.*e" % (digits - 1, float(x))) for x in p)
+
+
+# ---------------------------------------------------------------------------------------------------------------------------
+# direct products judged by POSITION: the factors of `A * B * ...` occupy consecutive parameter / algebra slices in the order written, and
+# every operation acts factor by factor.  The reference below cuts the slices itself (it does not ask the library which slice belongs to
+# which factor) and uses the separately explored base groups for the factors.
+# ---------------------------------------------------------------------------------------------------------------------------
+def product_leaves(G):
+    """[(base group name, Built, param slice, algebra slice)] of a (nested) direct product, None if G is not a product of base groups"""
+    from . import lib
+    from cyecca.lie.direct_product import LieGroupDirectProduct
+    if not isinstance(G, LieGroupDirectProduct):
+        return None
+    names = {id(g): n for n, g in lib.base_groups().items()}
+    flat = []
+
+    def walk(g):
+        if isinstance(g, LieGroupDirectProduct):
+            for h in g.groups:
+                walk(h)
+        else:
+            flat.append(g)
+    walk(G)
+    out, ip, ia = [], 0, 0
+    for g in flat:
+        if id(g) not in names:
+            return None
+        b = lib.built(names[id(g)])
+        out.append((names[id(g)], b, slice(ip, ip + g.n_param), slice(ia, ia + g.algebra.n_param)))
+        ip += g.n_param
+        ia += g.algebra.n_param
+    return out
+
+
+def _block_diag(ms):
+    n = sum(m.shape[0] for m in ms)
+    k = sum(m.shape[1] for m in ms)
+    M = np.zeros((n, k))
+    i = j = 0
+    for m in ms:
+        M[i:i + m.shape[0], j:j + m.shape[1]] = m
+        i += m.shape[0]
+        j += m.shape[1]
+    return M
+
+
+def check_product_by_position(res, B, elems, xs, case, sub, ops, tol=1e-9):
+    """ops: subset of {to_Matrix, inverse, product, identity, exp, wedge, log, Ad, ad}.  elems / xs: raw group / algebra vectors of the product"""
+    leaves = product_leaves(B.G)
+    if not leaves or len(leaves) < 2:
+        return
+    site = B.name
+
+    def same(a, b, scale=1.0):
+        a, b = np.asarray(a, dtype=float), np.asarray(b, dtype=float)
+        return a.shape == b.shape and np.all(np.isfinite(a)) and (a.size == 0 or float(np.max(np.abs(a - b))) <= tol * scale * (1 + float(np.max(np.abs(b)))))
+
+    def by_factor(op, v, alg):
+        outs = []
+        for nm, b, sp, sa in leaves:
+            outs.append(np.asarray(b.call(op, v[sa] if alg else v[sp]), dtype=float))
+        return outs
+    for op in ops:
+        try:
+            if op == "identity":
+                res.count("evaluations")
+                got = B.vec("identity")
+                want = np.concatenate([b.vec("identity") for nm, b, sp, sa in leaves])
+                if not same(got, want):
+                    res.fail(site=site + ".identity", clause="direct_product_acts_factor_by_factor_in_the_order_written", cls="identity", detail=dict(got=got, want=want), sub=sub, case=case)
+                continue
+            pool = xs if op in ("exp", "wedge", "ad") else elems
+            for v in pool:
+                res.count("evaluations")
+                if op in ("to_Matrix", "wedge", "Ad", "ad"):
+                    got = B.call(op, v)
+                    want = _block_diag([m if m.ndim == 2 else m.reshape(1, 1) for m in by_factor(op, v, op in ("wedge", "ad"))])
+                    bad = not same(got, want)
+                elif op in ("inverse", "exp", "log"):
+                    got = B.vec(op, v)
+                    parts = by_factor(op, v, op == "exp")
+                    want = np.concatenate([p_.reshape(-1) for p_ in parts])
+                    # compare as matrices of the factors where the parameters are not unique (q / -q, MRP shadow)
+                    bad = not same(got, want)
+                    if bad and op != "log" and got.shape == want.shape and np.all(np.isfinite(got)):
+                        bad = not all(same(b.call("to_Matrix", got[sp]), b.call("to_Matrix", want[sp])) for nm, b, sp, sa in leaves)
+                elif op == "product":
+                    w = pool[(next(i for i, p in enumerate(pool) if p is v) + 1) % len(pool)]
+                    got = B.vec("product", v, w)
+                    want = np.concatenate([np.asarray(b.vec("product", v[sp], w[sp]), dtype=float).reshape(-1) for nm, b, sp, sa in leaves])
+                    bad = not same(got, want)
+                    if bad and got.shape == want.shape and np.all(np.isfinite(got)):
+                        bad = not all(same(b.call("to_Matrix", got[sp]), b.call("to_Matrix", want[sp])) for nm, b, sp, sa in leaves)
+                else:
+                    continue
+                if bad:
+                    res.fail(site="%s.%s" % (site, op), clause="direct_product_acts_factor_by_factor_in_the_order_written", cls=op,
+                             detail=dict(factors=[nm for nm, b, sp, sa in leaves], arg=v, got=got, want=want), sub=sub, case=case)
+                    break
+        except NotImplementedError:
+            continue
